@@ -283,6 +283,15 @@ func (c *Ctx) checkStaleState(rule string, rels ...string) {
 			fmt.Sprintf("%d variable(s) %v keep the value of an earlier iteration when the current one does not overwrite them, and the loop body reads them (%d listed for this function): what was computed for one row, site or alignment is applied to the next", len(h.vars), h.vars, al.n))
 	}
 	L.OK(rule, "scope", fmt.Sprintf("packages %v", rels), "-", fmt.Sprintf("%d functions, %d loops examined", nFuncs, nLoops))
+	if cp := c.Controls(); cp != nil {
+		n := 0
+		for _, fn := range cp.SrcFuncs() {
+			if fn.Name() == "StaleKey" {
+				n += len(staleIterationState(fn))
+			}
+		}
+		L.ControlMustFire(rule, n > 0, "controls.StaleKey keeps the key of the previous name when neither branch assigns it")
+	}
 }
 
 // loopInvariant: v is built from constants, parameters, captured variables and values defined
